@@ -55,6 +55,18 @@ func limitsProfile() *harness.Profile {
 	return p
 }
 
+// limits + reservations: small nodes, asks that do not fit at once, tight user/group limits; the reserved ask is
+// re-tried on other nodes while other applications of the same user consume the quota
+func limitsReserveProfile() *harness.Profile {
+	p := limitsProfile()
+	p.Name = "limits-reserve"
+	p.Weights = harness.With(harness.BaseWeights(), map[string]int{harness.OpAddAsk: 22, harness.OpAddApp: 8, harness.OpRelease: 9, harness.OpUpdNode: 4, harness.OpAddNode: 5, harness.OpReload: 0,
+		harness.OpForeign: 1, harness.OpSetPred: 3})
+	p.NodeLo, p.NodeHi, p.AskLo, p.AskHi = 4, 10, 2, 8
+	p.OldAskProb, p.GangProb, p.ReqNodeProb = 80, 10, 5
+	return p
+}
+
 func reserveProfile() *harness.Profile {
 	p := mixedProfile()
 	p.Name = "reserve"
@@ -117,6 +129,19 @@ func TestC04(t *testing.T) {
 func TestC05(t *testing.T) {
 	runWorld(t, worldCheck{prop: "C05", check: "C05/world", profile: limitsProfile, nonTriv: func(w *harness.World) bool {
 		return w.Tags["c05-decision-under-user-limit"]+w.Tags["c05-decision-under-group-limit"] > 0
+	}})
+}
+
+func TestC05Reserve(t *testing.T) {
+	runWorld(t, worldCheck{prop: "C05", check: "C05/world-reserve", profile: limitsReserveProfile, nonTriv: func(w *harness.World) bool {
+		return w.Tags["c05-decision-under-user-limit"]+w.Tags["c05-decision-under-group-limit"] > 0 && w.Tags["bind-reserved-ask"] > 0
+	}})
+}
+
+// the SI protocol under reservations: asks reserved on full nodes, reported as bound elsewhere by the shim, released, re-tried
+func TestC04Reserve(t *testing.T) {
+	runWorld(t, worldCheck{prop: "C04", check: "C04/world-reserve", profile: reserveProfile, nonTriv: func(w *harness.World) bool {
+		return w.Tags["reservation-made"] > 0 && (w.Tags["report-bound-reserved-ask"] > 0 || w.Tags["release-reserved-ask"] > 0 || w.Tags["bind-reserved-ask"] > 0)
 	}})
 }
 
